@@ -1,0 +1,18 @@
+//go:build verif
+// +build verif
+
+package executor
+
+import "context"
+
+// Verification hooks (build tag "verif"). Nothing here is compiled into normal builds.
+
+// VerifGateHook is called immediately before a job's command is handed to the interpreter
+// ("CmdStart") and immediately after the interpreter returned ("CmdEnd"). It may block.
+var VerifGateHook func(ctx context.Context, ev string, job *Job, err error)
+
+func verifGate(ctx context.Context, ev string, job *Job, err error) {
+	if h := VerifGateHook; h != nil {
+		h(ctx, ev, job, err)
+	}
+}
